@@ -317,7 +317,15 @@ void solver_case(vt::Rng& rng, int64_t icase)
     }
     const auto eps = std::pow(10.0, rng.uniform(-10.0, -4.0));
     solver->parameter("solver::epsilon")   = eps;
-    solver->parameter("solver::max_evals") = rng.pick(std::vector<int64_t>{200, 1000, 5000});
+    const auto max_evals = rng.coin(1, 2) ? rng.pick(std::vector<int64_t>{200, 1000, 5000}) : rng.range(10, 5000);
+    solver->parameter("solver::max_evals") = max_evals;
+    // the outer budget: the whole run performs at most max_outer_iters inner solves, each within its own evaluation budget
+    const auto outers_name = std::string(which <= 1 ? "solver::augmented::max_outer_iters" : "solver::penalty::max_outer_iters");
+    if (rng.coin(1, 2))
+    {
+        solver->parameter(outers_name) = rng.range(10, rng.coin(1, 2) ? 12 : 100);
+    }
+    const auto max_outers = solver->parameter(outers_name).value<int64_t>();
 
     vt::counting_function_t counting(*function);
     const auto x0 = vt::random_x0(rng, n, rng.coin() ? 1.0 : 5.0);
@@ -376,7 +384,10 @@ void solver_case(vt::Rng& rng, int64_t icase)
                 .i("fcalls", state.fcalls())
                 .i("gcalls", state.gcalls())
                 .i("nF", nF)
-                .i("nG", nG));
+                .i("nG", nG)
+                .i("n", n)
+                .i("maxEvals", max_evals)
+                .i("maxOuters", max_outers));
 }
 } // namespace
 
@@ -399,6 +410,6 @@ int main(int argc, char* argv[])
         solver_case(rng, nl + i);
     }
     vt::put(vt::J("Solve").i("case", -1).s("solver", "end").s("status", "max_iters").i("ncons", 0).b("dimOK", true).b("valueOK", true).b("storedOK", true).b(
-        "finite", true).b("feasOK", true).i("fcalls", 0).i("gcalls", 0).i("nF", 0).i("nG", 0));
+        "finite", true).b("feasOK", true).i("fcalls", 0).i("gcalls", 0).i("nF", 0).i("nG", 0).i("n", 1).i("maxEvals", 10).i("maxOuters", 10));
     return 0;
 }
